@@ -301,8 +301,9 @@ def svd_truncated(
 
             # translate to total number of singular values to keep
             n_chi_all = ar.do("count_nonzero", cond, like=backend)
-            # and then to an absolute cutoff value
-            abs_cutoff = sall[-n_chi_all]
+            # and then to an absolute cutoff value, n.b. keep at least the
+            # largest value: `sall[-0]` would wrap around to the smallest one
+            abs_cutoff = sall[-max(int(n_chi_all), 1)]
 
         if 0 < max_bond < ar.size(sall):
             # also take into account a total maximum bond
